@@ -1,0 +1,29 @@
+//go:build verif
+// +build verif
+
+package server
+
+import (
+	"github.com/pingcap/kvproto/pkg/pdpb"
+	"go.etcd.io/etcd/clientv3"
+)
+
+// VerifC20InitOrGetClusterID exports initOrGetClusterID for the C20 verification driver.
+func VerifC20InitOrGetClusterID(c *clientv3.Client, key string) (uint64, error) {
+	return initOrGetClusterID(c, key)
+}
+
+// VerifC20CheckBootstrapRequest exports checkBootstrapRequest.
+func VerifC20CheckBootstrapRequest(clusterID uint64, req *pdpb.BootstrapRequest) error {
+	return checkBootstrapRequest(clusterID, req)
+}
+
+// VerifC20ReloadCluster does what a leader change does to the raft cluster of this member:
+// stopRaftCluster (step down) followed by createRaftCluster (campaignLeader after winning).
+func (s *Server) VerifC20ReloadCluster() error {
+	s.stopRaftCluster()
+	return s.createRaftCluster()
+}
+
+// VerifC20StopCluster is stopRaftCluster (used to reset between cases).
+func (s *Server) VerifC20StopCluster() { s.stopRaftCluster() }
